@@ -19,9 +19,21 @@ PID = "C19"
 THEOREMS = ["pure_ok_sound", "pure_ok_sound_all_caller_objects", "pure_ok_rejects_opaque", "rand_free_body",
             "checker_rejects_and_accepts"]
 RULE = ("static: one regenerated obligation per public entry point of the current tree. dynamic: seeded "
-        "cases per entry point over classes {random float diagrams, integer-valued diagrams in all three "
-        "forms, infinite deaths, empty / single point, skew on/off, kernels/weights, landscape "
-        "arithmetic, graphs as list/dense/CSR} + call-order families (same diagrams x secondary parameters, equal "
+        "cases per entry point over classes {random float diagrams, integer-valued diagrams in five equal-valued "
+        "forms (float64, int64, int32 arrays, nested lists of Python ints, a non-contiguous float64 view), "
+        "non-integral diagrams as contiguous / strided float64 array / nested list, "
+        "infinite deaths, empty / single point, skew on/off, kernels/weights, landscape "
+        "arithmetic, graphs as list/dense/CSR} + class integral_params for the imager, the weight functions and "
+        "the estimator sweep (integral diagrams under non-default secondary parameters that make the intermediate "
+        "values fractional: a linear ramp spanning the persistences of the case with odd width, persistence ** n "
+        "with n in {0.5, 1.5, 2.5}, a uniform kernel with non-integral half-width, general / isotropic Gaussian "
+        "covariances, explicit birth / persistence ranges; the weight functions are also called directly on "
+        "birth / persistence columns of every form) + estimator_sweep (ONE PersistenceImager / PersImage / "
+        "PersistenceLandscaper object applied to all forms of the same diagrams one after the other, with or "
+        "without re-fitting; fitted state and output must agree between the forms and when the whole sweep is "
+        "repeated on the same object); forms are compared at relative tolerance 1e-12 (sliced Wasserstein 1e-9), "
+        "and a form that raises while its wider sibling (float64 for the strided view, int64 for int32) is accepted "
+        "counts as a representation dependence + call-order families (same diagrams x secondary parameters, equal "
         "total size with different splits, both argument orders) evaluated forward / reversed / shuffled in fresh "
         "interpreters and 3x with junk allocations in between, results identical at tolerance 0; a case is non-trivial when the call returned a value "
         "(no exception) on at least one non-empty array/list argument, so that there was something to "
@@ -133,7 +145,12 @@ def extra_obligations(tier):
 # ================================================================================================
 # Every entry point handler takes (case, rep) and returns (args, thunk): ``args`` are the caller-owned
 # objects handed to the implementation, ``thunk()`` performs the call and returns the result.
-REPS = ("float", "int", "list")
+# forms of one diagram: float64 array (C order), int64 array, nested list (Python ints where the value is
+# integral), int32 array, and "fview" = an equal-valued float64 array that is a NON-CONTIGUOUS view (every other
+# column of a wider array whose remaining columns hold junk)
+REPS = ("float", "int", "list", "int32", "fview")
+FI = ("float", "int", "int32", "fview")
+INT_FORMS = ("int", "int32")
 
 
 def _conv(dgm, rep, ncol=2):
@@ -143,7 +160,15 @@ def _conv(dgm, rep, ncol=2):
         return [[(int(x) if (x == x and abs(x) != float("inf") and float(x).is_integer()) else x) for x in r] for r in rows]
     if rep == "int":
         return np.array(rows, dtype=np.int64).reshape(-1, ncol)
-    return np.array(rows, dtype=np.float64).reshape(-1, ncol)
+    if rep == "int32":
+        return np.array(rows, dtype=np.int32).reshape(-1, ncol)
+    a = np.array(rows, dtype=np.float64).reshape(-1, ncol)
+    if rep == "fview":
+        base = np.full((a.shape[0], 2 * ncol), -77.25)
+        v = base[:, ::2]
+        v[...] = a
+        return v
+    return a
 
 
 def _eps():
@@ -171,7 +196,7 @@ def _eps():
     E["bottleneck"] = (two(persim.bottleneck, matching=1), REPS)
     E["wasserstein"] = (two(persim.wasserstein, matching=1), REPS)
     E["heat"] = (two(persim.heat, sigma=1), REPS)
-    E["sliced_wasserstein"] = (two(persim.sliced_wasserstein, M=1), ("float", "int"))
+    E["sliced_wasserstein"] = (two(persim.sliced_wasserstein, M=1), FI)
 
     def entropy(c, rep):
         ds = [_conv(d, rep) for d in c["dgms"]]
@@ -179,7 +204,7 @@ def _eps():
         from persim.persistent_entropy import persistent_entropy as _pe
         return [arg], (lambda: _pe(arg, keep_inf=c.get("keep_inf", False),
                                                          val_inf=c.get("val_inf"), normalize=c.get("normalize", False)))
-    E["persistent_entropy"] = (entropy, ("float", "int"))
+    E["persistent_entropy"] = (entropy, FI)
 
     def imager(c):
         kw = {}
@@ -189,6 +214,14 @@ def _eps():
             kw = {"kernel_params": {"sigma": [[1.0, 0.5], [0.5, 2.0]]}}
         if c.get("weight") == "linear_ramp":
             kw.update(weight="linear_ramp", weight_params={"low": 0.0, "high": 1.0, "start": 0.0, "end": 2.0})
+        # non-default parameters chosen by the generator (fresh dict objects per estimator)
+        if c.get("weight_params") is not None:
+            kw["weight_params"] = dict(c["weight_params"])
+        if c.get("kernel_params") is not None:
+            kw["kernel_params"] = json.loads(json.dumps(c["kernel_params"]))
+        for k in ("birth_range", "pers_range"):
+            if c.get(k) is not None:
+                kw[k] = tuple(c[k])
         return persim.PersistenceImager(pixel_size=c.get("pixel_size", 0.5), **kw)
 
     def img_call(meth):
@@ -228,7 +261,7 @@ def _eps():
                 plt.close(fig)
             return None
         return [d], run
-    E["PersistenceImager.plot_diagram"] = (img_plot_diagram, ("float", "int"))
+    E["PersistenceImager.plot_diagram"] = (img_plot_diagram, FI)
 
     def img_plot_image(c, rep):
         d = _conv(c["dgms"][0], "float")
@@ -259,7 +292,7 @@ def _eps():
     def to_landscape(c, rep):
         d = _conv(c["dgms"][0], rep)
         return [d], (lambda: persim.PersImage.to_landscape(d))
-    E["PersImage.to_landscape"] = (to_landscape, ("float", "int"))
+    E["PersImage.to_landscape"] = (to_landscape, FI)
 
     def kernel_call(c, rep):
         x, y = np.array(c["x"], dtype=float), np.array(c["y"], dtype=float)
@@ -271,13 +304,21 @@ def _eps():
     E["images_kernels"] = (kernel_call, ("float",))
 
     def weight_call(c, rep):
-        b, p = _conv([[v] for v in c["x"]], rep, 1).ravel() if rep != "list" else list(c["x"]), None
-        p = np.array(c["y"], dtype=float) if rep != "list" else list(c["y"])
+        # birth and persistence columns in the SAME form (float64 / int64 / int32 / strided float64 arrays, or
+        # lists of Python numbers - ints where the value is integral), as the imager hands them over
+        def col(vals):
+            if rep == "list":
+                return [r[0] for r in _conv([[v] for v in vals], "list", 1)]
+            a = _conv([[v] for v in vals], rep, 1)
+            return a[:, 0] if rep == "fview" else a.ravel()
+        b, p = col(c["x"]), col(c["y"])
         if c["fn"] == "linear_ramp":
-            return [b, p], (lambda: images_weights.linear_ramp(b, p, low=0.0, high=2.0, start=0.5, end=3.0))
-        p = np.array(c["y"], dtype=float)
-        return [b, p], (lambda: images_weights.persistence(b, p, n=2.0))
-    E["images_weights"] = (weight_call, ("float", "list"))
+            wp = dict(c.get("wp") or {"low": 0.0, "high": 2.0, "start": 0.5, "end": 3.0})
+            return [b, p, wp], (lambda: images_weights.linear_ramp(b, p, **wp))
+        if rep == "list":
+            p = np.array(c["y"], dtype=float)       # p ** n: the documented argument type is an ndarray
+        return [b, p], (lambda: images_weights.persistence(b, p, n=c.get("n", 2.0)))
+    E["images_weights"] = (weight_call, REPS)
 
     # ---- landscapes
     def exact_obj(dgm, rep):
@@ -302,7 +343,7 @@ def _eps():
                  "div": lambda: a / 4.0, "neg": lambda: -a}[c["op"]]()
             return s.critical_pairs
         return [g1, g2, a, b], run
-    E["PersLandscapeExact.arith"] = (land_exact_arith, ("float", "int"))
+    E["PersLandscapeExact.arith"] = (land_exact_arith, FI)
 
     def land_crit(c, rep):
         cp1 = [[list(map(float, p)) for p in f] for f in c["cp1"]]
@@ -322,7 +363,7 @@ def _eps():
             pl = PersLandscapeApprox(dgms=dg, hom_deg=0, num_steps=c.get("num_steps", 20), start=c.get("start"), stop=c.get("stop"))
             return [pl.values, pl.p_norm(2), pl.sup_norm(), pl.values_to_pairs(), pl[0]]
         return [dg], run
-    E["PersLandscapeApprox"] = (land_approx, ("float", "int"))
+    E["PersLandscapeApprox"] = (land_approx, FI)
 
     def land_approx_arith(c, rep):
         g1, g2 = [_conv(c["dgms"][0], rep)], [_conv(c["dgms"][1], rep)]
@@ -334,7 +375,7 @@ def _eps():
                  "div": lambda: a / 4.0, "neg": lambda: -a}[c["op"]]()
             return s.values
         return [g1, g2, va, vb, a, b], run
-    E["PersLandscapeApprox.arith"] = (land_approx_arith, ("float", "int"))
+    E["PersLandscapeApprox.arith"] = (land_approx_arith, FI)
 
     def land_values(c, rep):
         v = np.array(c["values"], dtype=float)
@@ -356,7 +397,7 @@ def _eps():
             repr(t)
             return t.transform(X)
         return [X], run
-    E["PersistenceLandscaper"] = (landscaper, ("float", "int"))
+    E["PersistenceLandscaper"] = (landscaper, FI)
 
     def tools_call(c, rep):
         g1, g2 = [_conv(c["dgms"][0], rep)], [_conv(c["dgms"][1], rep)]
@@ -375,7 +416,7 @@ def _eps():
             coeffs = [0.25, 2.0]
             return [g1, g2, pls, coeffs], (lambda: ltools.lc_approx(pls, coeffs).values)
         return [g1, g2, pls], (lambda: ltools.average_approx(pls).values)
-    E["landscapes.tools"] = (tools_call, ("float", "int"))
+    E["landscapes.tools"] = (tools_call, FI)
 
     def land_plot(c, rep):
         g1 = [_conv(c["dgms"][0], rep)]
@@ -410,7 +451,7 @@ def _eps():
             return None
         extra = [c["xy_range"]] if c.get("xy_range") else []
         return [arg] + extra, run
-    E["plot_diagrams"] = (plot_diagrams, ("float", "int"))
+    E["plot_diagrams"] = (plot_diagrams, FI)
 
     def matching_plot(c, rep):
         a, b = _conv(c["d1"], rep), _conv(c["d2"], rep)
@@ -482,6 +523,45 @@ def _eps():
                 return [ops[o]() for o in c["ops"]]
         return [a, b], run
     E["history"] = (history, REPS)
+
+    # ---- ONE estimator object applied to every form of the same diagrams, one after the other (a parameter /
+    # dtype sweep as users write it): each form's fitted state and image must be the same
+    def sweep(c, rep):
+        forms = [f for f in c["order"] if f in (FI if c["kind"] == "landscaper" else REPS)]
+        Xs = {f: [_conv(d, f) for d in c["dgms"]] for f in forms}
+        if c["kind"] == "imager":
+            est = imager(c)
+            extra = [est.weight_params, est.kernel_params]
+        elif c["kind"] == "persimage":
+            est = persim.PersImage(pixels=(6, 6), spread=c.get("spread"), verbose=False)
+            extra = []
+        else:
+            est = PersistenceLandscaper(hom_deg=0, num_steps=c.get("num_steps", 15), flatten=c.get("flatten", False))
+            extra = []
+
+        def one(f, first):
+            X = Xs[f]
+            if c["kind"] == "imager":
+                if c.get("refit") or first:
+                    est.fit(X, skew=c.get("skew", True))
+                st = [list(est.birth_range), list(est.pers_range), list(est.resolution)]
+                return [st, est.transform(X, skew=c.get("skew", True))]
+            if c["kind"] == "persimage":
+                return est.transform(X)
+            if c.get("refit") or first:
+                est.fit(X)
+            return [est.start, est.stop, est.transform(X)]
+
+        def run():
+            res = []
+            for i, f in enumerate(forms):
+                try:
+                    res.append(["ok", _canon(one(f, i == 0))])
+                except Exception as e:
+                    res.append(["err", type(e).__name__])
+            return {"sweep_forms": list(forms), "sweep": res}
+        return [Xs[f] for f in forms] + extra, run
+    E["estimator_sweep"] = (sweep, ("float",))
     return E
 
 
@@ -633,13 +713,26 @@ def _run_case(c, E):
         results[rep] = rs[0]
         if rs[0][0] == "err":
             out["errors"][rep] = rs[0][1]
+        if c["ep"] == "estimator_sweep" and rs[0][0] == "ok":
+            # the forms were handled by ONE estimator in sequence: all accepted forms must agree
+            fr = [(f, r[1]) for f, r in zip(rs[0][1]["sweep_forms"], rs[0][1]["sweep"]) if r[0] == "ok"]
+            out["sweep_forms_ok"] = [f for f, _ in fr]
+            for f, v in fr[1:]:
+                if not _same(fr[0][1], v, c.get("rep_tol", 1e-12)):
+                    out["rep_bad"].append("%s-vs-%s(one estimator, forms in the order %s)" % (fr[0][0], f, "/".join(x for x, _ in fr)))
+            if len(fr) < 2:
+                out["nonempty_args"] = False
     # representation independence (only among the forms the function accepted)
     oks = [(r, v[1]) for r, v in results.items() if v[0] == "ok"]
-    if c.get("integral") and len(oks) >= 2:
+    if (c.get("integral") or c.get("repcmp")) and len(oks) >= 2:
         r0, v0 = oks[0]
         for r, v in oks[1:]:
             if not _same(v0, v, c.get("rep_tol", 1e-12)):
                 out["rep_bad"].append("%s-vs-%s" % (r0, r))
+    # a function that takes the contiguous float64 (int64) array must take the equal-valued strided float64 (int32) one
+    for wide, narrow in (("float", "fview"), ("int", "int32")):
+        if results.get(wide, ("",))[0] == "ok" and results.get(narrow, ("",))[0] == "err":
+            out["rep_bad"].append("%s-accepted-but-%s-raised-%s" % (wide, narrow, results[narrow][1]))
     out["forms_ok"] = [r for r, _ in oks]
     if oks:
         fl = _flat(oks[0][1], [])
@@ -1003,9 +1096,71 @@ def _crit(rng, k):
     return fs
 
 
-def _make(rng, ep, cls):
-    integral = cls in ("integral", "integral_inf")
-    reps = (["float", "list"] if cls == "integral_inf" else ["float", "int", "list"]) if integral else ["float"]
+def _ramp_params(rng, pers, directed=False):
+    """Parameters of images_weights.linear_ramp.  `directed`: the ramp spans the persistences of the case, with an
+    odd width, so that (integral) persistences receive fractional weights strictly between low and high."""
+    fin = [float(p) for p in pers if p != "inf" and p == p and abs(p) != float("inf")] or [1.0]
+    lo_p, hi_p = min(fin), max(fin)
+    if directed:
+        start = math.floor(lo_p) - rng.choice([0, 1, 0.5])
+        end = math.ceil(hi_p) + rng.choice([1, 2, 3.5])
+        if float(end - start).is_integer() and (end - start) % 2 == 0:
+            end += 1
+        low, high = rng.choice([(0.0, 1.0), (0, 1), (0.25, 2.0), (1.0, 3.0), (0.0, 0.5)])
+    else:
+        start = rng.choice([0.0, 0, 0.5, 1.0, 2])
+        end = start + rng.choice([1.0, 2, 3.0, 4, 7.5])
+        low, high = rng.choice([(0.0, 1.0), (0, 1), (0.0, 2.0), (1, 2), (0.5, 1.5), (2.0, 0.0)])
+    return {"low": low, "high": high, "start": start, "end": end}
+
+
+def _imager_params(rng, c, directed=False, variant=None):
+    """Non-default configuration of a PersistenceImager: weight / kernel parameters and explicit ranges.
+    `directed` cases rotate (variant mod 3) over: a ramp spanning the persistences of the case / a non-integral
+    power of the persistence / a uniform kernel whose half-width is not an integer."""
+    skew = c.get("skew", True)
+    pers = [(r[1] - r[0] if skew else r[1]) for d in c["dgms"] for r in d if r[1] != "inf"]
+    births = [r[0] for d in c["dgms"] for r in d]
+    if variant is None:
+        variant = rng.randrange(3)
+    if directed:
+        w = ["linear_ramp", "persistence", rng.choice(["linear_ramp", "persistence"])][variant % 3]
+    else:
+        w = rng.choice(["linear_ramp", "persistence"])
+    c["weight"] = w
+    if w == "linear_ramp":
+        c["weight_params"] = _ramp_params(rng, pers, directed=directed or rng.random() < 0.5)
+    else:
+        c["weight_params"] = {"n": rng.choice([0.5, 1.5, 2.5]) if directed else rng.choice([1, 2, 2.0, 0.5, 1.5, 3.0])}
+    k = c.get("kernel") or "gaussian"
+    if directed:
+        k = "uniform" if variant % 3 == 2 else rng.choice(["gaussian", "gaussian", "gauss_general"])
+    if k == "uniform":
+        c["kernel_params"] = {"width": rng.choice([1, 1.0, 1.5, 3]), "height": rng.choice([1, 0.5, 2.0])}
+        c["kernel"] = "uniform"
+    else:
+        v1, v2 = rng.choice([1, 1.0, 0.25, 2.0, 4]), rng.choice([1, 1.0, 0.5, 2.0])
+        r = rng.choice([0, 0.0, 0.0, 0.3, -0.5])
+        if r == 0 and rng.random() < 0.5:
+            v2 = v1                                  # isotropic: the fast path of the Gaussian kernel
+        cv = r * math.sqrt(v1 * v2)
+        c["kernel_params"] = {"sigma": [[v1, cv], [cv, v2]]}
+        c["kernel"] = "explicit"
+    if (directed or rng.random() < 0.6) and births and pers:
+        b0, p0 = math.floor(min(births)), math.floor(min(pers + [0.0]))
+        c["birth_range"] = [float(b0), float(math.ceil(max(births)) + rng.choice([1, 2]))]
+        c["pers_range"] = [float(p0), float(math.ceil(max(pers)) + rng.choice([1, 2]))]
+    return c
+
+
+def _make(rng, ep, cls, variant=None):
+    integral = cls in ("integral", "integral_inf", "integral_params")
+    reps = (["float", "list", "fview"] if cls == "integral_inf" else ["float", "int", "list", "int32", "fview"]) if integral else ["float"]
+    repcmp = False
+    if not integral and rng.random() < 0.5:
+        # non-integral values: the equal-valued forms are the contiguous and the strided float64 array (+ nested list)
+        reps = ["float", "fview"] + (["list"] if rng.random() < 0.5 else [])
+        repcmp = True
     n1, n2 = rng.randint(1, 5), rng.randint(1, 5)
     if cls == "empty":
         n1 = 0
@@ -1013,6 +1168,8 @@ def _make(rng, ep, cls):
         n1 = n2 = 1
     inf = 1 if cls in ("inf", "integral_inf") else 0
     c = {"ep": ep, "cls": cls, "seed": rng.randrange(10 ** 6), "integral": integral, "reps": reps}
+    if repcmp:
+        c["repcmp"] = True
     scale = rng.choice([2.0 ** 20, 2.0 ** -20]) if cls == "scaled" else 1.0
     d1, d2 = _dgm(rng, n1, integral, scale=scale, dupes=(cls == "dupes")), _dgm(rng, n2, integral, scale=scale, dupes=(cls == "dupes"))
     if cls == "scaled" and ep.startswith(("PersistenceImager", "PersImage", "PersLandscapeApprox", "PersistenceLandscaper", "landscapes", "images_")):
@@ -1038,6 +1195,8 @@ def _make(rng, ep, cls):
                  weight=rng.choice(["persistence", "linear_ramp"]), pixel_size=rng.choice([0.5, 1.0]))
         if ep.endswith("transform") and not ep.endswith("fit_transform") and rng.random() < 0.25:
             c["n_jobs"] = 1
+        if cls == "integral_params" or rng.random() < 0.35:
+            _imager_params(rng, c, directed=(cls == "integral_params"), variant=variant)
     elif ep == "PersistenceImager.config":
         c.update(birth_range=[0.0, float(rng.randint(1, 3))], pers_range=[0.0, float(rng.randint(1, 3))], pixel_size=rng.choice([0.5, 0.25, 0.3]))
     elif ep in ("PersImage.transform", "PersImage.to_landscape"):
@@ -1052,10 +1211,17 @@ def _make(rng, ep, cls):
             c["fn"] = rng.choice(["uniform", "gaussian", "gaussian"])
             r = rng.choice([0.0, 0.2, 0.5, 0.95, -0.95])
             c["sigma"] = [[1.0, r], [r, 1.0]]
-            c["reps"] = ["float"]
+            c["reps"] = ["float"]; c.pop("repcmp", None)
         else:
             c["fn"] = rng.choice(["linear_ramp", "persistence"])
-            c["reps"] = ["float", "list"] if integral else ["float"]
+            if cls == "integral_params" and variant is not None:
+                c["fn"] = ["linear_ramp", "persistence"][variant % 2]
+            if integral:
+                c["y"] = [float(rng.randint(0, 9)) for _ in range(k)]
+            if c["fn"] == "linear_ramp":
+                c["wp"] = _ramp_params(rng, c["y"], directed=(cls == "integral_params"))
+            else:
+                c["n"] = rng.choice([0.5, 1.5, 2.5]) if cls == "integral_params" else rng.choice([1, 2, 3, 1.0, 2.0, 0.5, 1.5])
     elif ep in ("PersLandscapeExact", "PersLandscapeApprox"):
         c.update(dgms=[(d1 or _dgm(rng, 2, integral)) + _dgm(rng, 0, integral, inf)], num_steps=rng.choice([10, 21]))
     elif ep in ("PersLandscapeExact.arith", "PersLandscapeApprox.arith"):
@@ -1083,7 +1249,7 @@ def _make(rng, ep, cls):
             c["xy_range"] = [-1.0, 8.0, -1.0, 9.0]
         if not single and rng.random() < 0.25:
             c["plot_only"] = [1]
-        c["reps"] = ["float", "int"] if integral and not inf else ["float"]
+        c["reps"] = ["float", "int", "int32", "fview"] if integral and not inf else ["float"]
     elif ep == "matching_plots":
         c.update(d1=d1 or _dgm(rng, 1, integral), d2=d2, which=rng.choice(["bottleneck", "wasserstein"]), reps=["float"])
     elif ep == "history":
@@ -1095,7 +1261,21 @@ def _make(rng, ep, cls):
         c.update(d1=d1 or _dgm(rng, 2, integral), d2=d2, ops=ops)
         if integral:
             # list form: only the functions that accept nested lists
-            c["reps"] = ["float", "int"]
+            c["reps"] = ["float", "int", "int32", "fview"]
+        elif repcmp:
+            c["reps"] = ["float", "fview"]
+    elif ep == "estimator_sweep":
+        kind = rng.choice(["imager", "imager", "persimage", "landscaper"])
+        if cls == "integral_params":
+            kind = "imager"
+        order = list(reps) if integral else ["float", "fview", "list"]
+        rng.shuffle(order)
+        c.pop("repcmp", None)
+        c.update(kind=kind, order=order, reps=["float"], dgms=[d1 or _dgm(rng, 2, integral), d2], refit=rng.random() < 0.5,
+                 skew=rng.random() < 0.75, pixel_size=rng.choice([0.5, 1.0]), spread=rng.choice([None, 1.0]),
+                 num_steps=rng.choice([8, 15]), flatten=rng.random() < 0.5)
+        if kind == "imager":
+            _imager_params(rng, c, directed=(cls == "integral_params" or rng.random() < 0.5), variant=variant)
     elif ep == "gromov_hausdorff":
         k = 2 if rng.random() < 0.7 else 3
         c.update(graphs=[_graph(rng, rng.randint(2, 6)) for _ in range(k)], form=rng.choice(["dense", "list", "csr"]),
@@ -1206,7 +1386,11 @@ EP_NAMES = ["bottleneck", "wasserstein", "heat", "sliced_wasserstein", "persiste
             "PersLandscapeExact", "PersLandscapeExact.arith", "PersLandscapeExact.critical_pairs",
             "PersLandscapeApprox", "PersLandscapeApprox.arith", "PersLandscapeApprox.values",
             "PersistenceLandscaper", "landscapes.tools", "landscapes.plot", "plot_diagrams", "matching_plots",
-            "gromov_hausdorff", "history"]
+            "gromov_hausdorff", "history", "estimator_sweep"]
+# entry points with secondary parameters under which integral inputs give fractional intermediate values: extra
+# cases of class "integral_params" (all five forms, directed non-default weight / kernel / range parameters)
+PARAM_EPS = ["PersistenceImager.fit_transform", "PersistenceImager.transform", "PersistenceImager.fit", "images_weights",
+             "estimator_sweep"]
 CLASSES = ["random", "integral", "integral", "inf", "integral_inf", "single", "empty", "dupes", "scaled"]
 SLOW = {"landscapes.plot", "matching_plots", "PersistenceImager.plot_diagram", "PersistenceImager.plot_image", "plot_diagrams"}
 
@@ -1246,6 +1430,9 @@ def generate(rng, tier):
         for i in range(k):
             cls = CLASSES[i % len(CLASSES)] if i < len(CLASSES) else rng.choice(CLASSES)
             cases.append(_make(rng, ep, cls))
+    for ep in PARAM_EPS:
+        for v in range(3 if tier == "quick" else 42):
+            cases.append(_make(rng, ep, "integral_params", variant=v))
     for kind in ORDER_KINDS:
         for _ in range(1 if tier == "quick" else 4):
             cases.append(_order_case(rng, kind))
@@ -1267,7 +1454,7 @@ def search_generate(rng, n):
     per = max(6, min(40, n // max(1, len(eps))))
     for ep in eps:
         for i in range(per):
-            c = _make(rng, ep, rng.choice(["random", "random", "integral", "inf", "single"]))
+            c = _make(rng, ep, rng.choice(["random", "random", "integral", "integral_params", "inf", "single"]))
             if "skew" in c:
                 c["skew"] = True
             if "lifetime" in c:
@@ -1327,6 +1514,15 @@ def shrink_candidates(c):
             if len(dg) > 1:
                 for j in range(len(dg)):
                     d = dict(c); d["dgms"] = [list(x) for x in c["dgms"]]; d["dgms"][i] = dg[:j] + dg[j + 1:]; yield d
+    if "x" in c and "y" in c and len(c["x"]) > 1 and len(c["x"]) == len(c["y"]):
+        for j in range(len(c["x"])):
+            d = dict(c); d["x"] = c["x"][:j] + c["x"][j + 1:]; d["y"] = c["y"][:j] + c["y"][j + 1:]; yield d
+    if len(c.get("order", [])) > 2:
+        for j in range(len(c["order"])):
+            d = dict(c); d["order"] = c["order"][:j] + c["order"][j + 1:]; yield d
+    if len(c.get("reps", [])) > 2:
+        for j in range(len(c["reps"])):
+            d = dict(c); d["reps"] = c["reps"][:j] + c["reps"][j + 1:]; yield d
     if len(c.get("reps", [])) > 1:
         for r in c["reps"]:
             d = dict(c); d["reps"] = [r]; yield d
